@@ -1,5 +1,6 @@
 # C11 -- aggregates equal their definitions over exactly the selected items
 import random
+import math
 import statistics
 import itertools
 from fractions import Fraction
@@ -14,7 +15,7 @@ LEVEL_TEXT = ("Deductive: SUM / PRODUCT / MIN / MAX / COUNT / AVERAGE / MEDIAN r
               "the prefix length (@inductive: uninterpreted application + the defining equation unfolded once), 0 / an error when nothing is "
               "selected; thorough tier: MAXIFS also against the quantified characterisation (an equal selected item exists, all selected <=).  The flattening generators (iflatten, inumbers) are outside the subset: callers use their contract, the bodies "
               "are checked natively.  Bounded: every aggregate against exact Fraction arithmetic over seeded lists, partitions, permutations, "
-              "criteria of the three forms.")
+              "criteria of the three forms (numbers also spelled .5, -.5, 2., +1, 1e0), data far from the origin.")
 TRUSTED = ['statistics.*, sum, max, min, sorted, reduce: textbook definitions (assumed, compared with exact rationals natively)',
            'permutation invariance of the order-free statistics (M3, a property of the definitions)']
 
@@ -68,10 +69,18 @@ def extra(report, env):
             else:
                 parts.append(chunk)
         return parts
-    for _ in range(120 if env['tier'] == 'quick' else 1500):
+    for _it in range(120 if env['tier'] == 'quick' else 1500):
         n = rng.randint(1, 40)
         xs = [rng.choice([rng.randint(-50, 50), round(rng.uniform(-20, 20), 2), rng.randint(1, 5)]) for _ in range(n)]
-        fx = [F(x) for x in xs]
+        if _it % 4 == 3:
+            # data far from the origin compared with its spread (measurements around 1e8, prices around 1e6): the definitions do not care
+            off = rng.choice([10 ** 8, 10 ** 6, -10 ** 7])
+            xs = [off + round(rng.uniform(0, 1), 1) for _ in range(n)]
+            fx_exact = True
+        else:
+            fx_exact = False
+        # (far from the origin the float nearest to 100000000.1 is not 100000000.1: the reference works on the values the library is given)
+        fx = [Fraction(x) for x in xs] if fx_exact else [F(x) for x in xs]
         for name, f in defs.items():
             if name in ('VAR', 'VAR.S', 'STDEV', 'STDEV.S') and n < 2:
                 continue
@@ -88,7 +97,10 @@ def extra(report, env):
                 text = '%s(%s)' % (name, ','.join('arg%s' % 'abcdefghijklmnopqrstuvwxyzABCDEFGHIJKLMNOP'[i] for i in range(len(parts))))
                 cases += 1
                 r = p.parse(text)
-                if not (r['error'] is None and close(r['result'], want)) and len(fails) < 5:
+                # floating-point rounding of the INPUT scale is allowed for (64 ulps of the largest item): deviations of data around 1e8
+                # cannot be known better than that, however the statistic is computed
+                slack = 64 * math.ulp(max(abs(float(x)) for x in xs)) if fx_exact else 0.0
+                if not (r['error'] is None and (close(r['result'], want) or abs(float(r['result']) - float(want)) <= slack)) and len(fails) < 5:
                     fails.append({'formula': '%s over %r (variant %d: %r)' % (name, xs, variant, parts), 'detail': 'expected %s got %r' % (float(want), r)})
         # MODE, GEOMEAN, HARMEAN, LARGE, SLOPE
         p.set_variable('xs', xs)
@@ -122,7 +134,10 @@ def extra(report, env):
         p.set_variable('ws', words)
         t = rng.randint(-3, 3)
         for crit, pred in (('">%d"' % t, lambda c: c > t), ('"<=%d"' % t, lambda c: c <= t), ('"<>%d"' % t, lambda c: c != t), ('"=%d"' % t, lambda c: c == t),
-                           ('"%d"' % t, lambda c: c == t)):
+                           ('"%d"' % t, lambda c: c == t),
+                           # numbers spelled the short way: .5, -.5, 2.
+                           ('">.5"', lambda c: c > 0.5), ('"<-.5"', lambda c: c < -0.5), ('"<>.5"', lambda c: c != 0.5), ('".5"', lambda c: c == 0.5),
+                           ('"=2."', lambda c: c == 2), ('">=+1"', lambda c: c >= 1), ('"<1e0"', lambda c: c < 1)):
             sel = [fx[i] for i in range(n) if pred(crit_cells[i])]
             self_sel = [F(c) for c in crit_cells if pred(c)]
             checks = [('SUMIF(cs,%s)' % crit, sum(self_sel)), ('COUNTIF(cs,%s)' % crit, len(self_sel)), ('SUMIFS(xs,cs,%s)' % crit, sum(sel)),
